@@ -77,6 +77,12 @@ func runC09(p *Program, e *Engine, r *Result, tier string) {
 	ops := collectTableOps(a, tf, w)
 	c09Cleanup(a, tf, hctx, entry, *watchLit, entryPath, maskSubj, ops, "C09.1")
 	c09MoveSelf(a, df, tf, hv, hctx, entry, *watchLit, entryPath, maskSubj, "C09.2")
+	// (6) the reader takes a watch out of the tables only when the kernel says this record's watch is gone, or together
+	// with inotify_rm_watch on it (shared with C12.2): a watched file that is unlinked while a descriptor is open keeps
+	// its watch - an IN_DELETE reported by the parent directory is no reason to forget the file's own watch
+	for _, rd := range a.Ro.Readers {
+		c12Release(a, tf, rd, "C09.6")
+	}
 	// (3) duplicate suppression consults Dir(watch.path)
 	sup := false
 	for _, v := range hv {
